@@ -138,6 +138,11 @@ def build(it, cls, D, **overrides):
     if traced:
         kwargs = {k: (as_traced(v) if k not in ("num_circle_points", "injection_mode") else v) for k, v in kwargs.items()}
         pos = [as_traced(p) if (isinstance(p, Poly) and p != N) else p for p in pos]
+    return construct(it, cls, pos, kwargs)
+
+
+def construct(it, cls, pos, kwargs):
+    """call a constructor; a Python branch on the value range of a float parameter forks (see _fork_on_region)"""
     try:
         return it.call(cls, pos, kwargs)
     except UndecidableBranch as e:
